@@ -38,7 +38,10 @@ def _rewrite_func(match):
 
 def osc_rematch_pattern(pattern, address):
     pattern = re.sub(_rewrite_pattern, _rewrite_func, pattern)
-    return re.match(pattern, address) is not None
+    try:
+        return re.match(pattern, address) is not None
+    except re.error:
+        return False  # A malformed pattern matches nothing.
 
 
 ### Option 2 ###
